@@ -129,7 +129,7 @@ func runC16(c *harness.Ctx) {
 		if k == 7 {
 			sz = upSizes[t.Draw("up.any", len(upSizes))]
 		}
-		upPlan = append(upPlan, writePlan{Size: sz, PauseMs: []int{0, 0, 1, 50, 150, 1000, 7000}[t.Draw("up.pause", 7)]})
+		upPlan = append(upPlan, writePlan{Size: sz, PauseMs: []int{0, 0, 1, 50, 150, 1000, 7000, 40000}[t.Draw("up.pause", 8)]})
 	}
 	upTotal := planTotal(upPlan)
 	srv.downTotal = int64([]int{0, 1, 1000, 65536, 65537, 150000}[t.Draw("down.total", 6)])
